@@ -50,11 +50,15 @@ STMTS = [
     (["subprocess.Popen(zz_c,", "                 stdin=None,", "                 shell=True, env={'k': hashlib.md5(zz_b)})"], ["B602", "B324"]),
     (["zz_r = zz_wrap(subprocess.call('ls',", "    shell=True),", "    pickle.loads(zz_p))"], ["B602", "B607", "B301"]),
     (["zz_d = {", "    'k': '0.0.0.0',", "}"], ["B104"]),
+    # literal pieces of an f-string inside a multi-line call: the flagged expression is the f-string, not the call (seeded C02-M)
+    (["zz_f(zz_a,", "     f'/tmp/{zz_x}',", "     zz_b)"], ["B108"]),
+    (["zz_cur.execute(", "    f'SELECT * FROM zz_t WHERE id = {zz_x}',", "    zz_p,", "    zz_q)"], ["B608"]),
+    (["zz_f(zz_a,", "     f'/tmp/{zz_x}'", "     f'/var/tmp/{zz_y}',", "     zz_b)"], ["B108"]),
 ]
 NAMES = {"B324": "hashlib_insecure_functions", "B301": "pickle", "B101": "assert_used", "B404": "import_subprocess", "B602": "subprocess_popen_with_shell_equals_true",
          "B603": "subprocess_without_shell_equals_true", "B607": "start_process_with_partial_path",
          "B105": "hardcoded_password_string", "B108": "hardcoded_tmp_directory", "B102": "exec_used",
-         "B104": "hardcoded_bind_all_interfaces"}
+         "B104": "hardcoded_bind_all_interfaces", "B608": "hardcoded_sql_expressions"}
 OTHER = "B324"
 
 
@@ -152,6 +156,30 @@ def unit_decision(R, rng, tier):
     for i, tail in mm:
         R.broken.append({"what": "correspondence: _get_nosecs_from_contexts differs from the model", "input": descr[i],
                          "implementation": cases[i][1][:300], "model_output_excerpt": tail[:500]})
+
+
+_FS_CACHE = {}
+
+
+def fstring_span(src, r):
+    """Lines of the f-string whose literal piece a string-based finding flags (None when the finding is not on such a piece):
+    computed from CPython's tree, independently of the range bandit reports."""
+    if r["test_id"] not in ("B104", "B105", "B106", "B107", "B108", "B608"):
+        return None
+    if src not in _FS_CACHE:
+        import ast
+        spans = {}
+        try:
+            for n in ast.walk(ast.parse(src)):
+                if isinstance(n, ast.JoinedStr):
+                    for v in n.values:
+                        if isinstance(v, ast.Constant) and isinstance(v.value, str):
+                            spans[(v.lineno, v.col_offset)] = set(range(n.lineno, n.end_lineno + 1))
+        except SyntaxError:
+            pass
+        _FS_CACHE.clear()
+        _FS_CACHE[src] = spans
+    return _FS_CACHE[src].get((r["lineno"], r["col"]))
 
 
 def render(text, a, b):
@@ -267,6 +295,10 @@ def system(R, rng, tier):
                                              "input": p["src"], "observed": None, "signature": None})
                 continue
             span = set(r["linerange"]) | {r["lineno"]}
+            fs = fstring_span(p["src"], r)
+            if fs is not None:
+                # the flagged expression is an f-string: its own lines are the span, whatever range the report carries
+                span = fs | {r["lineno"]}
             relevant = [v for l, v in mt["placed"].items() if l in span]
             want = any(kind == "bare" or (kind == "names" and r["test_id"] in ids) for _, kind, ids in relevant)
             got = key(r) not in {key(x) for x in rep}
